@@ -1,6 +1,7 @@
 import LiteFSVerif.Driver.Util
 import LiteFSVerif.Driver.RWMutexD
 import LiteFSVerif.Driver.CodecD
+import LiteFSVerif.Driver.EngineD
 
 open LiteFSVerif LiteFSVerif.Driver
 
@@ -9,6 +10,7 @@ def main (args : List String) : IO UInt32 := do
   let stdout ← IO.getStdout
   match args with
   | ["rwmutex"] => loop stdin stdout RWMutexD.stepModel (RWMutex.Mutex.init 0); return 0
+  | ["engine"] => loop stdin stdout EngineD.step {}; return 0
   | ["codec"] => loop stdin stdout Codec.stepModel (); return 0
   | _ =>
     IO.eprintln "usage: modeld <suite>"
